@@ -133,6 +133,7 @@ def main(argv):
         return 1
     results, errors = core.coq_eval(cfg, cases, workdir)
     in_scope = results.pop("scope", None)
+    in_thm_scope = results.pop("thm_scope", None)
     if errors:
         p = write_broken_replay(cfg, "Coq evaluation of the cases failed", "\n".join(errors)[-3000:], a.tier, a.seed)
         print("VIOLATION property=%s replay=%s no-failing-input-found" % (pid, p))
@@ -142,6 +143,8 @@ def main(argv):
     extra_cov = {}
     if in_scope is not None:
         extra_cov["cases_in_property_scope"] = in_scope
+    if in_thm_scope is not None:
+        extra_cov["cases_meeting_theorem_hypotheses"] = in_thm_scope
     mismatches = []
     seen_sig = set()
 
@@ -178,7 +181,7 @@ def main(argv):
             violations.append((p, ""))
             continue
         res_b, err_b = core.coq_eval(sub, cases_b, wd2)
-        res_b.pop("scope", None)
+        res_b.pop("scope", None); res_b.pop("thm_scope", None)
         if err_b:
             p = write_broken_replay(cfg, "Coq evaluation failed in stage %s" % extra_stage["harness"], "\n".join(err_b)[-2000:], a.tier, a.seed)
             violations.append((p, " no-failing-input-found"))
@@ -205,7 +208,7 @@ def main(argv):
         cases2, hlog2 = core.run_harness(binp, pid, workdir, seed2, n2, "thorough", tag="esc", procs=cfg.get("procs", 1))
         if cases2 is not None:
             res2, err2 = core.coq_eval(cfg, cases2, workdir, tag="esc")
-            res2.pop("scope", None)
+            res2.pop("scope", None); res2.pop("thm_scope", None)
             if not err2:
                 before = len(mismatches)
                 classify(cases2, res2, seed2)
